@@ -328,6 +328,35 @@ theorem C02_handler_error (p : Path) (msg : Text) : contains (clientErrorText p 
 example : clientErrorText (.tool t!"echo") t!"disk full" = t!"tool call error: tool execution failed (tool: echo): disk full (code: -32603)" := by
   decide
 
+/-- **exactly the message**: the caller's error text is the handler's message inside a wrapper that depends on the request
+    path only - the message is copied, never interpreted (a `%` in it is a `%`) - so the message can be read back from the
+    error text: two handler messages that give the same error text on the same path are the same message -/
+theorem C02_handler_error_exact (p : Path) (msg : Text) :
+    ∃ pre post : Text, (∀ m : Text, clientErrorText p m = pre ++ m ++ post) ∧ clientErrorText p msg = pre ++ msg ++ post := by
+  cases p with
+  | tool name =>
+    exact ⟨t!"tool call error: " ++ (t!"tool execution failed (tool: " ++ name ++ t!"): "), t!" (code: " ++ intText (-32603) ++ t!")",
+      fun m => by simp [clientErrorText, clientPrefix, serverErrorMessage, List.append_assoc],
+      by simp [clientErrorText, clientPrefix, serverErrorMessage, List.append_assoc]⟩
+  | prompt =>
+    exact ⟨t!"get prompt error: ", t!" (code: " ++ intText (-32603) ++ t!")",
+      fun m => by simp [clientErrorText, clientPrefix, serverErrorMessage, List.append_assoc],
+      by simp [clientErrorText, clientPrefix, serverErrorMessage, List.append_assoc]⟩
+  | resource =>
+    exact ⟨t!"read resource error: ", t!" (code: " ++ intText (-32603) ++ t!")",
+      fun m => by simp [clientErrorText, clientPrefix, serverErrorMessage, List.append_assoc],
+      by simp [clientErrorText, clientPrefix, serverErrorMessage, List.append_assoc]⟩
+
+theorem C02_handler_error_injective (p : Path) (m₁ m₂ : Text) (h : clientErrorText p m₁ = clientErrorText p m₂) : m₁ = m₂ := by
+  obtain ⟨pre, post, hall, _⟩ := C02_handler_error_exact p m₁
+  rw [hall m₁, hall m₂, List.append_assoc, List.append_assoc] at h
+  exact List.append_cancel_right (List.append_cancel_left h)
+
+/-- non-vacuity: printf material in a handler's message arrives as it is (not "50%!d(MISSING)one") -/
+example : clientErrorText .prompt t!"50% done %d %s" = t!"get prompt error: 50% done %d %s (code: -32603)"
+    ∧ clientErrorText (.tool t!"fail 100%d %s") t!"%" = t!"tool call error: tool execution failed (tool: fail 100%d %s): % (code: -32603)" := by
+  decide
+
 /-! ## routing: the payload never decides what kind of message a response is -/
 
 /-- **a response is routed as a response whatever its result contains** - for every id and every result JSON (any member
